@@ -83,9 +83,20 @@ func jtPointerRoute(r string, k int) *ast.Route {
 			&ast.ReturnStatement{Value: &ast.ObjectExpr{Fields: []ast.ObjectField{{Key: "v", Value: lit(k)}, {Key: "id", Value: v("id")}, {Key: "y", Value: v("y")}}}},
 		}}
 	}
+	// besides the version number: the same operands in both orders of a + that joins strings at run time (id is a
+	// path parameter), an expression repeated after one of its operands changed, and an int/float comparison - what the
+	// rewrites of the higher tiers must leave alone
+	str := func(x string) ast.Expr { return &ast.LiteralExpr{Value: ast.StringLiteral{Value: x}} }
+	add := func(a, b ast.Expr) ast.Expr { return &ast.BinaryOpExpr{Op: ast.Add, Left: a, Right: b} }
 	return &ast.Route{Method: ast.Get, Path: "/b/:id", Body: []ast.Statement{
 		&ast.AssignStatement{Target: "k", Value: &ast.BinaryOpExpr{Op: ast.Add, Left: lit(k), Right: lit(0)}},
-		&ast.ReturnStatement{Value: &ast.ObjectExpr{Fields: []ast.ObjectField{{Key: "v", Value: v("k")}, {Key: "id", Value: v("id")}}}},
+		&ast.AssignStatement{Target: "sfx", Value: add(v("id"), str("!"))},
+		&ast.AssignStatement{Target: "p", Value: add(v("id"), v("sfx"))},
+		&ast.AssignStatement{Target: "q", Value: add(v("sfx"), v("id"))},
+		&ast.ReassignStatement{Target: "sfx", Value: add(v("sfx"), str("?"))},
+		&ast.AssignStatement{Target: "p2", Value: add(v("id"), v("sfx"))},
+		&ast.ReturnStatement{Value: &ast.ObjectExpr{Fields: []ast.ObjectField{{Key: "v", Value: v("k")}, {Key: "id", Value: v("id")},
+			{Key: "p", Value: v("p")}, {Key: "q", Value: v("q")}, {Key: "p2", Value: v("p2")}}}},
 	}}
 }
 
